@@ -17,7 +17,7 @@ from .. import effects, guards
 
 MANIFEST = {
     "level": "other",
-    "technique": "static analysis: literal-table audit against the IERS leap-second list, taint rule on the January/February shift (symbolic evaluation of _compute_jde), inverse-guard comparison of the two activation predicates, branch sibling comparison for the override, partial evaluation of constructor and read-back for every keyword combination, recovery of the decision structure of leap_seconds(year, month) (loop over the literal table unrolled) and comparison with the IERS step function on every ordering class, polynomial extraction and exact evaluation of the Delta-T segments",
+    "technique": "static analysis: literal-table audit against the IERS leap-second list, taint rule on the January/February shift (symbolic evaluation of _compute_jde), inverse-guard comparison of the two activation predicates, branch sibling comparison for the override, partial evaluation of constructor and read-back for every keyword combination, recovery of the decision structure of leap_seconds(year, month) (loop over the literal table unrolled) and comparison with the IERS step function on every ordering class, polynomial extraction and exact evaluation of the Delta-T segments, day-of-year tables of the read-back path (shared with C16)",
     "text": "The table clause is decided outright (the table is a literal). The offset clauses are decided structurally for every date at once: the leap-second lookup and the 1972 threshold see the civil year/month, construction and read-back switch on at the same (year, month) = (1972, 1), the override branch is the automatic branch with the table value replaced, every combination of the utc / leap_seconds / local keywords reaches the documented branch (a supplied value always wins), and leap_seconds(year, month) selects the IERS count for every (year, month). The Delta-T clauses are decided on the polynomials extracted from the source. The 1 ms read-back is not decided.",
     "note": "Trusted: the IERS Bulletin C history embedded in the checker (27 insertions 1972-2016); TT-TAI = 32.184 s and TAI-UTC(1972-01-01) = 10 s as stated in the property. Undecided: 1 ms read-back.",
 }
@@ -42,6 +42,10 @@ def run(repo, rep, tier):
     d4_deltat(repo, rep, tier)
     d5_kwpaths(repo, rep)
     d6_step(repo, rep)
+    # the TT -> UTC read-back shifts the date through get_doy / doy2date: their day-number tables (rule shared with C16)
+    from .c16 import doy_tables
+    rep.fn("Epoch", "Epoch.get_doy"); rep.fn("Epoch", "Epoch.doy2date")
+    doy_tables(repo, rep, tier)
     fam = [("Epoch", "Epoch." + q) for q in ("leap_seconds", "get_last_leap_second", "_compute_jde", "get_date", "tt2ut")]
     effects.check_functions(repo, rep, fam)
     guards.check_functions(repo, rep, fam)
